@@ -4,7 +4,7 @@ import Nv.Gen.C08
 /-!
 oracle_c08 — line protocol (state: sparse threshold, one 64-bit word, two 1024-bit registers `a`,`b`):
   new                                   → ok          (re)initialise; threshold := regenerated default
-  magic <m>                             → ok          set the sparse/dense threshold
+  magic <m>                             → magic=<m>   set the sparse/dense threshold (T-observable: read back through the hook)
   w <hex>                               → ok          load the word
   set64 <i> | unset64 <i>               → <hex>       i : byte
   len64                                 → <len> <nlen> <full>
@@ -93,7 +93,7 @@ def step (st : S) (line : String) : S × String :=
   match words line with
   | ["new"] => (init, "ok")
   | ["magic", m] => match parseInt? m with
-    | some m => if inI32 m then ({ st with magic := m }, "ok") else (st, "bad-op")
+    | some m => if inI32 m then ({ st with magic := m }, s!"magic={m}") else (st, "bad-op")
     | none => (st, "bad-op")
   | ["w", h] => match parseHex? h with
     | some n => ({ st with word := BitVec.ofNat 64 n }, "ok")
